@@ -96,7 +96,12 @@ func merge(segs []segment.Segment, drops []*roaring.Bitmap, mode uint32) (b []by
 	return buf.Bytes(), nums, n, err
 }
 
-func observe(seg segment.Segment) (*obs.Obs, error) { return obs.Observe(seg) }
+func observe(seg segment.Segment) (o *obs.Obs, err error) {
+	if msg := explore.Guard(func() { o, err = obs.Observe(seg) }); msg != "" {
+		return nil, fmt.Errorf("%s", msg)
+	}
+	return o, err
+}
 
 // sigOf derives a stable signature from a diff / error text: first word (component) and
 // failure class.
